@@ -125,8 +125,9 @@ def stepTh (d : D) (t : Th) (w : Wit) : Option D :=
     (step d.c d.s (.caller 0) w).map fun s' => { d with s := s', cDone := if starting then d.cDone + 1 else d.cDone }
   | .a0 => (step d.c d.s .addSink w).map fun s' => { d with s := s', aDone := d.aDone + 1 }
   | .e0 =>
-    -- `safeGetDataChan` waits behind a Stop call that waits for the data channel write lock
-    if d.pend.any (fun t => (t == .s0 && stopPc d 0 == .sDone) || (t == .s1 && stopPc d 1 == .sDone)) then none
+    -- `safeGetDataChan` (drop strategy; block/expand return on the stopped flag before any lock) waits
+    -- behind a Stop call that waits for the data channel write lock
+    if d.c.dropStrat && d.pend.any (fun t => (t == .s0 && stopPc d 0 == .sDone) || (t == .s1 && stopPc d 1 == .sDone)) then none
     else match d.eRes with
       | none => (step d.c d.s (.emit false) w).map fun s' => { d with s := s', eDone := d.eDone + 1 }
       | some id =>
@@ -302,12 +303,14 @@ def run (c : Case) : CaseOut := Id.run do
   let s0started := started.any (fun l => l.getD 1 "" == "s0")
   let s1started := started.any (fun l => l.getD 1 "" == "s1")
   -- place `stopCalled` before everything: the clause only counts them
-  let finOf (t : String) : Bool := (c.ops.flatMap (·.2)).any fun l => l == ["th", t, "fin"]
-  -- a Stop call that started and never returned is reported as stuck (clause stop-returns)
-  let hung := (if s0started && !finOf "s0" then [LifecycleSpec.Ev.stuck "s0"] else []) ++
-    (if s1started && !finOf "s1" then [LifecycleSpec.Ev.stuck "s1"] else [])
-  let evs' := (if s0started || s1started then [LifecycleSpec.Ev.stopCalled] else []) ++ evs ++ hung
-  let verdict := match (LifecycleSpec.clauses hasSinks evs').find? (fun x => !x.2) with
+  let evs' := (if s0started || s1started then [LifecycleSpec.Ev.stopCalled] else []) ++ evs
+  -- "every row reaches the sinks" is only asked of runs that ended quiescent
+  let finals := (c.ops.flatMap (·.2)).filter fun l => l.head? == some "final"
+  let quiesced := !finals.isEmpty && finals.all fun l =>
+    match l with
+    | [_, _, st] => st == "fin" || st == "idle" || st == "cons.recv"
+    | _ => false
+  let verdict := match (LifecycleSpec.clauses (hasSinks && quiesced) evs').find? (fun x => !x.2) with
     | some cl => "fail:" ++ cl.1
     | none => "ok"
   if d.s.rowPanics.length > 0 then tags := "row-panic" :: tags
